@@ -23,6 +23,7 @@ Spec = tuple
 
 MS_NF2 = ((0,), (1,))
 MS_FX2 = ((0,), (1,), (0, 1))
+MS_FX2R = ((0,), (1,), (1, 0))  # eligible machines listed in descending order
 MS_NF3 = ((0,), (1,), (2,))
 MS_FX3 = ((0,), (1,), (2,), (0, 1), (0, 2), (1, 2))
 
@@ -88,6 +89,16 @@ def K3(durations=(0, 1, 2), machine_sets=MS_FX2) -> Iterator[Spec]:
 def K4(durations=(0, 1, 2), machine_sets=MS_FX2) -> Iterator[Spec]:
     """All instances with exactly 4 operations in <= 3 jobs."""
     return family(K4_SHAPES, machine_sets, durations)
+
+
+def K3r(durations=(0, 1, 2)) -> Iterator[Spec]:
+    """K3 with flexible operations listing their machines as [1, 0]
+    (only the instances that contain such an operation)."""
+    return (s for s in family(K3_SHAPES, MS_FX2R, durations) if is_flexible(s))
+
+
+def K4r(durations=(0, 1, 2)) -> Iterator[Spec]:
+    return (s for s in family(K4_SHAPES, MS_FX2R, durations) if is_flexible(s))
 
 
 def K3_pos() -> Iterator[Spec]:
@@ -172,13 +183,17 @@ P_4JOBS = _nf(
 P_SINGLE_JOB = _nf([[(0, 1), (1, 2), (0, 3), (1, 1)]])
 P_SINGLE_MACHINE = _nf([[(0, 1), (0, 2)], [(0, 2)], [(0, 1)]])
 P_ZERO = _nf([[(0, 0), (1, 2), (0, 0)], [(0, 2), (1, 0)]])
+P_FLEX_REV = (
+    (((1, 0), 2), ((0,), 1)),
+    (((1,), 1), ((2, 0), 2)),
+)  # machine lists not sorted, 3 machines
 P_FLEX_3X2 = (
     (((0, 1), 2), ((1,), 1)),
     (((0,), 1), ((0, 1), 2)),
     (((1,), 2), ((0, 1), 1)),
 )
 
-P_SMALL = [P_2X2, P_RECIRC, P_FLEX_UNUSED, P_SINGLE_MACHINE, P_ZERO, P_FLEX_3X2]
+P_SMALL = [P_2X2, P_RECIRC, P_FLEX_UNUSED, P_SINGLE_MACHINE, P_ZERO, P_FLEX_3X2, P_FLEX_REV]
 P_LARGE = [P_EXAMPLE, P_EXAMPLE2, P_IRREGULAR, P_4JOBS, P_SINGLE_JOB]
 P_ALL = P_SMALL + P_LARGE
 
